@@ -19,7 +19,7 @@ theorem gen_no_extraction_failures : Dtn7.Gen.C03.extractionFailures = [] := rfl
 /-- CRC type codes and the protocol version the model parser expects. -/
 theorem gen_constants :
     Dtn7.Gen.C03.crcNo = 0 ∧ Dtn7.Gen.C03.crc16 = 1 ∧ Dtn7.Gen.C03.crc32 = 2 ∧
-    Dtn7.Gen.C03.dtnVersion = dtnVersion := ⟨rfl, rfl, rfl, rfl⟩
+    Dtn7.Gen.C03.dtnVersion = dtnVersion ∧ Dtn7.Gen.C03.isFragment = 1 := ⟨rfl, rfl, rfl, rfl, rfl⟩
 
 /-- The package builds its tables from the CCITT (reflected 0x8408) and Castagnoli polynomials, and the
 libraries' constants are the polynomials of the Spec. -/
@@ -101,13 +101,26 @@ theorem gen_crc_buffer :
 theorem gen_read_order :
     Dtn7.Gen.C03.primaryBlockUnmarshalCalls =
       ["new", "io.TeeReader", "cboring.ReadArrayLength", "cboring.ReadUInt", "cboring.ReadUInt",
-       "BundleControlFlags", "cboring.ReadUInt", "CRCType", "cboring.Unmarshal", "cboring.Unmarshal",
+       "BundleControlFlags().Has", "BundleControlFlags", "BundleControlFlags", "cboring.ReadUInt",
+       "emptyCRC", "CRCType", "CRCType", "CRCType", "cboring.Unmarshal", "cboring.Unmarshal",
        "cboring.ReadUInt", "cboring.ReadUInt", "calculateCRCBuff", "cboring.ReadByteString", "bytes.Equal"] ∧
     Dtn7.Gen.C03.canonicalBlockUnmarshalCalls =
       ["cboring.ReadArrayLength", "new", "cboring.WriteArrayLength", "io.TeeReader", "cboring.ReadUInt",
-       "cboring.ReadUInt", "cboring.ReadUInt", "BlockControlFlags", "cboring.ReadUInt", "CRCType",
-       "GetExtensionBlockManager().ReadBlock", "GetExtensionBlockManager", "calculateCRCBuff",
+       "cboring.ReadUInt", "cboring.ReadUInt", "BlockControlFlags", "cboring.ReadUInt", "emptyCRC",
+       "CRCType", "CRCType", "CRCType", "GetExtensionBlockManager().ReadBlock", "GetExtensionBlockManager", "calculateCRCBuff",
        "cboring.ReadByteString", "bytes.Equal"] := ⟨rfl, rfl⟩
+
+/-- The checks added by the repairs of D5 and D7 (model: the three `if`s of `primaryPre`, the two of
+`canonicalPre`): the CRC type must be one `emptyCRC` knows, the CRC item is present iff the type is not
+`CRCNo`, and the primary array carries the fragment fields iff the fragment flag is set. -/
+theorem gen_type_checks :
+    Dtn7.Gen.C03.primaryBlockTypeChecks =
+      ["else if hasFrag := blockLen == 10 || blockLen == 11; hasFrag != BundleControlFlags(bcf).Has(IsFragment)",
+       "else if _, err := emptyCRC(CRCType(crcT)); err != nil",
+       "else if hasCrc := blockLen == 9 || blockLen == 11; hasCrc != (CRCType(crcT) != CRCNo)"] ∧
+    Dtn7.Gen.C03.canonicalBlockTypeChecks =
+      ["else if _, err := emptyCRC(CRCType(crcT)); err != nil",
+       "else if hasCrc := blockLen == 6; hasCrc != (CRCType(crcT) != CRCNo)"] := ⟨rfl, rfl⟩
 
 /-- `PrimaryBlock.SetCRCType` (model: `setCrcTypePrimary`). -/
 theorem gen_setCRCType :
@@ -181,11 +194,11 @@ theorem single_bit_detected (t : Nat) (ht : t = 1 ∨ t = 2) (pre post : Bytes) 
 
 /-! ## The model of dtn7's check -/
 
-/-- **`accept_iff_crc`** — full statement (NOT true of the code, see `reencoded_head_witness` and
-`declared_but_absent_witness`): *every block that declares CRC type 1/2 is accepted by the parser iff the
-last `crcLen t` bytes of exactly the bytes consumed for it are the CRC of those bytes with the field
-zeroed.* What holds is the statement for blocks whose array length announces the CRC item and whose
-array head / CRC item head are in shortest form (the excluded classes are the two known findings).
+/-- **`accept_iff_crc`** — full statement (NOT true of the code, see `reencoded_head_witness`): *every
+block that declares a CRC (CRC type ≠ 0) is accepted by the parser iff the last `crcLen t` bytes of
+exactly the bytes consumed for it are the CRC of those bytes with the field zeroed.* Since the repair of
+D5 (6746a33) a declared CRC is always carried and always of a known type, so the only excluded class
+left is the known finding "head not in shortest form".
 
 Buffer level: a block whose bytes before the CRC item are `buf` and whose CRC item is the byte string
 `field` (shortest head) of the declared length is accepted by the model's check iff `BlockCrcOk`. -/
@@ -194,24 +207,38 @@ theorem accept_iff_crc_partial (t : Nat) (ht : t = 1 ∨ t = 2) (buf field rest 
     checkField buf t (encBytes field ++ rest) = .ok (field, rest) ↔ BlockCrcOk t (buf ++ encBytes field) :=
   Lemmas.accept_iff_crc t ht buf field rest hf
 
-/-- Parser level, canonical block: the model parser read a 6-element array declaring CRC type `t`
-(`hpre`), the array head it consumed is the shortest form (`hhead`), the CRC item is `encBytes v` with
-`v` of the declared length. Then the block is accepted, leaving `x` unread, iff the Spec holds of
-`consumed bs x` — exactly the received bytes of that block. -/
-theorem canonical_accept_iff_crc_partial (t : Nat) (ht : t = 1 ∨ t = 2) (bs r0 r v x : Bytes)
-    (hpre : canonicalPre bs = .ok (6, t, r0, r))
-    (hhead : consumed bs r0 = encArray 6)
+/-- **`declared_crc_is_checked`** (D5 repaired): whatever array length and CRC type value the wire says,
+if the model parser gets past the block's fields and the CRC type is not 0, then the array has the CRC
+item, the type is CRC-16 or CRC-32, and acceptance went through the comparison. -/
+theorem declared_crc_is_checked (bs x r0 r : Bytes) (n t : Nat)
+    (hpre : canonicalPre bs = .ok (n, t, r0, r)) (hdecl : t ≠ 0) (hacc : parseCanonical bs = .ok x) :
+    n = 6 ∧ (t = 1 ∨ t = 2) ∧ ∃ v, checkField (canonicalBuf 6 r0 r) t r = .ok (v, x) :=
+  Lemmas.canonical_declared_checked bs x r0 r n t hpre hdecl hacc
+
+/-- The same facts for the primary block: type known, CRC item present iff declared. -/
+theorem primary_declared_has_item (bs r : Bytes) (n t : Nat) (hpre : primaryPre bs = .ok (n, t, r)) :
+    t ≤ 2 ∧ ((n = 9 ∨ n = 11) ↔ t ≠ 0) :=
+  (Lemmas.primaryPre_ok bs r n t hpre).2
+
+/-- Parser level, canonical block — no assumption on the array length or on the type value: the model
+parser read the block's fields (`hpre`), the block declares a CRC (`hdecl`), the array head it consumed
+is in shortest form (`hhead`), the CRC item is `encBytes v` with `v` of the declared length. Then the
+block is accepted, leaving `x` unread, iff the Spec holds of `consumed bs x` — exactly the received
+bytes of that block. -/
+theorem canonical_accept_iff_crc_partial (bs r0 r v x : Bytes) (n t : Nat)
+    (hpre : canonicalPre bs = .ok (n, t, r0, r)) (hdecl : t ≠ 0)
+    (hhead : consumed bs r0 = encArray n)
     (hitem : r = encBytes v ++ x) (hv : v.length = crcLen t) :
     parseCanonical bs = .ok x ↔ BlockCrcOk t (consumed bs x) :=
-  Lemmas.canonical_accept_iff_crc t ht bs r0 r v x hpre hhead hitem hv
+  Lemmas.canonical_accept_iff_crc_decl bs r0 r v x n t hpre hdecl hhead hitem hv
 
-/-- Parser level, primary block (9 or 11 elements; the array head is tee'd as received, so only the CRC
-item head has to be in shortest form). -/
-theorem primary_accept_iff_crc_partial (t : Nat) (ht : t = 1 ∨ t = 2) (bs r v x : Bytes) (n : Nat)
-    (hn : n = 9 ∨ n = 11) (hpre : primaryPre bs = .ok (n, t, r))
+/-- Parser level, primary block (the array head is tee'd as received, so only the CRC item head has to
+be in shortest form). -/
+theorem primary_accept_iff_crc_partial (bs r v x : Bytes) (n t : Nat)
+    (hpre : primaryPre bs = .ok (n, t, r)) (hdecl : t ≠ 0)
     (hitem : r = encBytes v ++ x) (hv : v.length = crcLen t) :
     parsePrimary bs = .ok x ↔ BlockCrcOk t (consumed bs x) :=
-  Lemmas.primary_accept_iff_crc t ht bs r v x n hn hpre hitem hv
+  Lemmas.primary_accept_iff_crc_decl bs r v x n t hpre hdecl hitem hv
 
 /-- Whatever is accepted — any head width, any length — carries the value `calculateCRCBuff` computed:
 in particular a CRC item of another length than declared is rejected. -/
@@ -321,10 +348,13 @@ theorem reencoded_head_witness :
     ¬ BlockCrcOk 1 [0x98, 0x06, 0x01, 0x01, 0x00, 0x01, 0x41, 0x78, 0x42, 0x27, 0x00] ∧
     BlockCrcOk 1 [0x86, 0x01, 0x01, 0x00, 0x01, 0x41, 0x78, 0x42, 0x27, 0x00] := by decide +kernel
 
-/-- D5: a block that declares a CRC type but is a 5-element array carries no CRC and is accepted (witness
-against the full `accept_iff_crc`: hypothesis `hpre … (6, …)` of `canonical_accept_iff_crc_partial`). -/
-theorem declared_but_absent_witness :
-    parseCanonical [0x85, 0x01, 0x01, 0x00, 0x01, 0x41, 0x78] = .ok [] ∧
+/-- D5 (repaired by 6746a33; was a witness against `accept_iff_crc`): a 5-element block with CRC type 1
+or 3, a 6-element block with CRC type 0 and an empty byte string — the encodings the unrepaired code
+accepted — are rejected; the Spec side still classifies the first as "declared but absent". -/
+theorem declared_but_absent_rejected :
+    parseCanonical [0x85, 0x01, 0x01, 0x00, 0x01, 0x41, 0x78] = .error .other ∧
+    parseCanonical [0x85, 0x01, 0x01, 0x00, 0x03, 0x41, 0x78] = .error .other ∧
+    parseCanonical [0x86, 0x01, 0x01, 0x00, 0x00, 0x41, 0x78, 0x40] = .error .other ∧
     crcStatus false ⟨[0x85, 0x01, 0x01, 0x00, 0x01, 0x41, 0x78], [[0x01], [0x01], [0x00], [0x01], [0x41, 0x78]]⟩
       = .absent 1 := by decide +kernel
 
